@@ -225,12 +225,30 @@ class PathRecord:
         return obs
 
 
+_HC = None
+
+
+def _hash_consts():
+    global _HC
+    if _HC is None:
+        from eth_hash.auto import keccak
+
+        _HC = {int.from_bytes(keccak(i.to_bytes(32, "big")), "big") for i in range(256)}
+    return _HC
+
+
 def _wraps(ev, term, depth=0):
     """does evaluating the location term involve an addition that leaves [0, 2^256) and has a keccak summand?"""
     if depth > 6 or not z3.is_app(term):
         return False
     kids = term.children()
-    if term.decl().kind() == z3.Z3_OP_BADD and any("sha3" in str(k.decl().name()) or (z3.is_app(k) and any("sha3" in str(g.decl().name()) for g in k.children())) for k in kids):
+
+    def hashy(k):
+        if z3.is_bv_value(k):
+            return k.as_long() in _hash_consts()      # halmos computes keccak of a small concrete slot concretely
+        return "sha3" in str(k.decl().name()) or (z3.is_app(k) and any("sha3" in str(g.decl().name()) for g in k.children()))
+
+    if term.decl().kind() == z3.Z3_OP_BADD and any(hashy(k) for k in kids):
         if sum(ev.ev(k) for k in kids) >= (1 << term.size()):
             return True
     return any(_wraps(ev, k, depth + 1) for k in kids)
